@@ -54,7 +54,7 @@ from openpectus.engine.hardware import HardwareLayerBase, RegisterDirection  # n
 from openpectus.lang.exec.clock import WallClock                            # noqa: E402
 from openpectus.lang.exec.errors import MethodEditError                     # noqa: E402
 from openpectus.lang.exec.tags import Tag, TagDirection, SystemTagName      # noqa: E402
-from openpectus.lang.exec.tags_impl import ReadingTag, SelectTag            # noqa: E402
+from openpectus.lang.exec.tags_impl import ReadingTag, SelectTag, DerivedTag            # noqa: E402
 from openpectus.lang.exec.timer import NullTimer                            # noqa: E402
 from openpectus.lang.exec.uod import UodBuilder, UodCommand                 # noqa: E402
 from openpectus.lang.exec.regex import RegexNumber, RegexCategorical        # noqa: E402
@@ -178,6 +178,11 @@ def make_uod(run: "Run", totalizer=True):
             raise RuntimeError("Boom")
 
     hw = RecHW(run)
+    level = Tag("Level", value=5.0, unit=None)          # constant; input of the derived tag below
+
+    def _twice(v):
+        return None if v is None else 2 * v
+
     b = (UodBuilder()
          .with_instrument("VerifUod")
          .with_author("verif", "verif@example.invalid")
@@ -199,6 +204,8 @@ def make_uod(run: "Run", totalizer=True):
          .with_tag(Tag("Free", value=0.0, unit=None, direction=TagDirection.Output))
          .with_tag(Tag("Out3", value=0.0, unit=None, direction=TagDirection.Output))
          .with_tag(Tag("Temp", value=20.0, unit="degC"))
+         .with_tag(DerivedTag("Twice", fn=_twice, input_tags=[level]))     # registered before its input tag
+         .with_tag(level)
          .with_tag(Tag("Conc", value=10.0, unit="vol%"))         # percentage family: are_comparable is not symmetric there
          .with_tag(Tag("Pct", value=10.0, unit="%"))
          .with_command(name="Inst", exec_fn=inst, init_fn=init, finalize_fn=fin, arg_parse_fn=None)
